@@ -1253,8 +1253,9 @@ end XotModel.Props
   of the domain of `C05_frame_general` (the nine structural calls, clone_node, map insert / remove made as plain API
   calls, the value setters, node creation, set_text_consolidation) that answer `ok` on live arguments, only that neither the
   tracked element nor one of its children is in `Forest.XCall.writtenParents`, inside the removed subtree or inside
-  the moved subtree; for every other step it is `touchesEntries`.  So appending a text node to a SIBLING of a
-  tracked element, or removing a cousin, no longer blocks the prediction. -/
+  the moved subtree; ANY extended call on live arguments that answers an error touches nothing (`C06_atomic_ext`: it
+  has changed nothing); for every other step it is `touchesEntries`.  So appending a text node to a SIBLING of a
+  tracked element, removing a cousin, or a call the crate refuses no longer blocks the prediction. -/
 
 namespace XotModel.Props
 open XotModel Fmap
@@ -1292,11 +1293,13 @@ theorem C11_step_sharp {s : PStore} (hi : s.forest.Inv) (c : PCall) (hw : c.well
 /-! ### Non-vacuity: `<r a="1"><c/><d/></r>` = document 0, `r` 1, `a` 2, `c` 3, `d` 4.  Tracked: `c`.  A new text node
     (handle 6; 5 is the attribute node the first map step creates) is APPENDED TO THE SIBLING `d`, then `d` is removed: both calls write inside the tree of `c`, so the
     coarse condition refuses the history; the sharp one accepts it, and the prediction from the two map steps alone
-    is what the model computes. -/
+    is what the model computes.  The second step, `append(c, document)`, is REFUSED by the crate (invalidOperation):
+    it names the tracked element itself and touches nothing. -/
 
 def c11SharpPre : List PCall := [.parse .document "<r a=\"1\"><c/><d/></r>".toList]
 def c11SharpSteps : List MixStep := [
   .map (.setAttribute 3 5 ['v']),
+  .other (.api (.call (.append 3 0))),
   .other (.api (.newNode (.text ['t']))),
   .other (.api (.call (.append 4 6))),
   .map (.setAttribute 3 3 ['w']),
@@ -1312,7 +1315,10 @@ example :
     sharpTouches s 3 (.api (.call (.append 4 5))) = false ∧
     (Forest.XCall.call (.append 4 5)).writtenParents s.forest = [4, 5] ∧
     s.forest.kidHandles 1 = [2, 3, 4] ∧
-    sharpTouches s 3 (.api (.call (.append 3 5))) = true ∧ sharpTouches s 3 (.api (.call (.remove 1))) = true := by
+    sharpTouches s 3 (.api (.call (.append 3 5))) = true ∧ sharpTouches s 3 (.api (.call (.remove 1))) = true ∧
+    ((PCall.api (.call (.append 3 0))).run s).2 = .api (.err .invalidOperation) ∧
+    touchesEntries s.forest 3 (.api (.call (.append 3 0))) = true ∧
+    sharpTouches s 3 (.api (.call (.append 3 0))) = false := by
   decide +kernel
 example : abs .attributes (mixRun ((PStore.init Env.fresh).run c11SharpPre) c11SharpSteps).forest 3 =
     specOps2 (famOf ((PStore.init Env.fresh).run c11SharpPre).forest) (mapOpsOf c11SharpSteps) 3 .attributes :=
